@@ -177,7 +177,7 @@ def model_check_pay(binary, workdir, tier):
 
 
 MC_FAMILIES = {  # cfg file, (quick depth, thorough depth)
-    "timeout": ("MC_Timeout.cfg", (7, 9)), "did": ("MC_Did.cfg", (6, 8)), "super": ("MC_Super.cfg", (5, 7)), "reward": ("MC_Reward.cfg", (6, 7)), "auth": ("MC_Auth.cfg", (6, 7)),
+    "timeout": ("MC_Timeout.cfg", (6, 9)), "did": ("MC_Did.cfg", (6, 8)), "super": ("MC_Super.cfg", (5, 7)), "reward": ("MC_Reward.cfg", (6, 7)), "auth": ("MC_Auth.cfg", (6, 7)),
 }
 MC_FAMILY_CFG = {"accounts": 8, "dids": 2, "validators": 2, "balance": 10000000, "blockReward": 840}
 
